@@ -3,7 +3,10 @@
 package bill
 
 import (
+	"github.com/invopop/gobl/cal"
 	"github.com/invopop/gobl/internal/vrt"
+	"github.com/invopop/gobl/num"
+	"github.com/invopop/gobl/org"
 	"github.com/invopop/gobl/tax"
 )
 
@@ -13,7 +16,49 @@ import (
 func H_C03_Readd() {
 	o := skOpts{rule: tax.RoundingRuleCurrency, cur: skCurrency(), lines: skLines(), fixedAtCur: true, rich: true, include: true}
 	inv := skInvoice(o)
-	cur := o.cur.Def().Subunits
+	c03Check(inv, o.cur.Def().Subunits)
+}
+
+// H_C03_LineVariants: one line with every line-level construction (two discounts, fixed rows, explicit bases on
+// percentage discounts and charges, rate charges), prices with the currency's or more decimals, quantities with or
+// without decimals, and no document-level rows: the same laws.
+func H_C03_LineVariants() {
+	cur := skCurrency()
+	ce := cur.Def().Subunits
+	pexp := ce + 2*uint32(vrt.Choice("pexp", 2))
+	qexp := uint32(2 * vrt.Choice("qexp", 2))
+	pr := skAmt("price", pexp)
+	p21 := skP21
+	l := &Line{Quantity: skQty("qty", qexp), Item: &org.Item{Name: "item", Price: &pr}, Taxes: tax.Set{{Category: "VAT", Percent: &p21}}}
+	pct := func() *num.Percentage { p := skP10; return &p }
+	base := func(name string) *num.Amount { b := skAmt(name, ce); return &b }
+	switch vrt.Choice("disc", 5) {
+	case 1:
+		l.Discounts = []*LineDiscount{{Percent: pct()}, {Amount: skAmt("disc.fixed", ce)}}
+	case 2:
+		l.Discounts = []*LineDiscount{{Percent: pct(), Base: base("disc.base")}}
+	case 3:
+		p5 := skP5
+		l.Discounts = []*LineDiscount{{Percent: pct()}, {Percent: &p5}}
+	case 4:
+		l.Discounts = []*LineDiscount{{Amount: skAmt("disc.fixed", ce)}}
+	}
+	switch vrt.Choice("charge", 5) {
+	case 1:
+		l.Charges = []*LineCharge{{Percent: pct()}}
+	case 2:
+		l.Charges = []*LineCharge{{Percent: pct(), Base: base("charge.base")}}
+	case 3:
+		r := skAmt("charge.rate", ce)
+		l.Charges = []*LineCharge{{Rate: &r}}
+	case 4:
+		l.Charges = []*LineCharge{{Amount: skAmt("charge.fixed", ce)}, {Percent: pct()}}
+	}
+	inv := &Invoice{Currency: cur, IssueDate: cal.MakeDate(2024, 3, 1), Tax: &Tax{Rounding: tax.RoundingRuleCurrency}, Lines: []*Line{l}}
+	c03Check(inv, ce)
+}
+
+func c03Check(inv *Invoice, cur uint32) {
 	err := calculate(inv)
 	vrt.Assert(err == nil, "calculates")
 	if err != nil {
